@@ -69,6 +69,7 @@ var (
 	c12SplitAlpha    = []string{"\n", "a", "\r", "b"}
 	c12HdrBytes      = []string{"C", ":", "\r", "\n", "1", " ", "x"}
 	c12HdrTokensWide = []string{"Content-Length:", "content-type:", "X-Other:", "1", "0", "x", " ", "\r\n", "\n", "ab"}
+	c12HdrTokensCase = []string{"Content-Length:", "1", "\r\n", "x", "Content-Type:X\r\n", "content-type:x\r\n"}
 	c12HdrTokens     = []string{"Content-Length:", "1", "\r\n", "x", "content-type:x\r\n"}
 	c12JSONTokens    = []string{"{", "}", "[", "]", "\"a\"", ",", ":", "1", " ", "null", "-", "\""}
 )
@@ -92,6 +93,10 @@ func c12Exhaustive(g *lineGen, r *rng, tier string) {
 	}
 	allSeqs(c12HdrTokens, lim(6, 7), func(s string) { g.addStream("strict:78", s, r) })
 	allSeqs(c12HdrTokens, lim(5, 6), func(s string) { g.addStream("header:78", s, r) })
+	// a media type with an upper-case letter: the field NAME is case-insensitive, the VALUE is compared exactly
+	for _, fr := range []string{"strict:58", "header:58"} {
+		allSeqs(c12HdrTokensCase, lim(4, 5), func(s string) { g.addStream(fr, s, r) })
+	}
 	if th {
 		allSeqs(c12HdrTokens, 5, func(s string) { g.addStream("lsp", s, r) })
 		allSeqs(c12HdrTokens, 5, func(s string) { g.addStream("header:-", s, r) })
